@@ -97,8 +97,16 @@ I14 == Viol("C14", C14)
 J14 == Note("C14", C14)
 I15 == Viol("C15", C15)
 J15 == Note("C15", C15)
-I16 == Viol("C16", C16)
-J16 == Note("C16", C16)
+(* C16 across process histories: a behaviour that was recorded a second time in another process - one   *)
+(* in which other instances (another block size first) had been used before - shows exactly the same     *)
+(* observations.  (The bytes a dropped object leaves behind are not compared: they may hold addresses.)  *)
+Twins == {t \in Starts : t # s /\ Rec[t].twin # "" /\ Rec[t].twin = Rec[s].twin}
+SameObs(a, b) == a.ev = b.ev /\ (a.ev # "drop" => a = b)
+Deterministic ==
+  (fin /\ Rec[s].twin # "") =>
+     \A t \in Twins : Rec[t].n = Rec[s].n /\ \A k \in 1..Rec[s].n : SameObs(Rec[s + k], Rec[t + k])
+I16 == Viol("C16", C16 /\ Deterministic)
+J16 == Note("C16", C16 /\ Deterministic)
 I17 == Viol("C17", C17)
 J17 == Note("C17", C17)
 =============================================================================
